@@ -98,7 +98,7 @@ pub fn gen_case4(prop: &str, seed: u64, thorough: bool, rng: &mut Rng) -> Case {
         "C02P" => {
             let mut cfg = base_cfg(rng, Profile::Producers, thorough);
             cfg.nkeys = rng.range(1, 3);
-            cfg.strategy = draw_strategy(rng, &["producer", "producer", "thrd-tantivy-index", "segment_updater"]);
+            cfg.strategy = draw_strategy(rng, &["producer0", "producer1", "producer2", "producer", "thrd-tantivy-index", "segment_updater"]);
             let mut g = Gen { rng: Rng::new(rng.next_u64()), next_uid: 1 };
             let mut ops = vec![];
             let rounds = rng.range(1, 3);
@@ -109,10 +109,10 @@ pub fn gen_case4(prop: &str, seed: u64, thorough: bool, rng: &mut Rng) -> Case {
                 if rng.chance(1, 3) {
                     ops.push(Op::Commit);
                 }
-                let np = rng.range(2, 3) as usize;
+                let np = rng.range(2, if thorough { 4 } else { 3 }) as usize;
                 let mut ps = vec![];
                 for _ in 0..np {
-                    let m = rng.range(1, 4);
+                    let m = rng.range(1, 5);
                     let mut p = vec![];
                     for _ in 0..m {
                         match rng.weighted(&[45, 30, 25]) {
@@ -1046,6 +1046,7 @@ struct ProdRec {
     op: ProdOp,
     invoke: u64,
     ret: u64,
+    stamp: Option<u64>,
 }
 
 fn body_producers(case: &Case) -> RunOut {
@@ -1080,11 +1081,8 @@ fn fork_op(e: &mut Exec, ps: &[Vec<ProdOp>]) {
                 for op in &p {
                     let i0 = sched::step();
                     let r = match op {
-                        ProdOp::Add(d) => w.add_document(d.to_tantivy(&fields)).map(|_| ()),
-                        ProdOp::DeleteKey(k) => {
-                            w.delete_term(Term::from_field_u64(fields.key, *k));
-                            Ok(())
-                        }
+                        ProdOp::Add(d) => w.add_document(d.to_tantivy(&fields)),
+                        ProdOp::DeleteKey(k) => Ok(w.delete_term(Term::from_field_u64(fields.key, *k))),
                         ProdOp::Batch(b) => {
                             let ops: Vec<tantivy::indexer::UserOperation> = b
                                 .iter()
@@ -1093,14 +1091,18 @@ fn fork_op(e: &mut Exec, ps: &[Vec<ProdOp>]) {
                                     BatchOp::Delete(k) => tantivy::indexer::UserOperation::Delete(Term::from_field_u64(fields.key, *k)),
                                 })
                                 .collect();
-                            w.run(ops).map(|_| ())
+                            w.run(ops)
                         }
                     };
                     let i1 = sched::step();
-                    if let Err(x) = r {
-                        failed.lock().unwrap().push(x.to_string());
-                    }
-                    recs.lock().unwrap().push(ProdRec { thread: t, op: op.clone(), invoke: i0, ret: i1 });
+                    let stamp = match r {
+                        Ok(st) => Some(st),
+                        Err(x) => {
+                            failed.lock().unwrap().push(x.to_string());
+                            None
+                        }
+                    };
+                    recs.lock().unwrap().push(ProdRec { thread: t, op: op.clone(), invoke: i0, ret: i1, stamp });
                     shuttle::thread::yield_now();
                 }
             })
@@ -1165,6 +1167,15 @@ fn fork_op(e: &mut Exec, ps: &[Vec<ProdOp>]) {
             return;
         }
     };
+    // the commit's opstamp is larger than that of every operation it includes
+    if let Some(r) = recs.iter().filter(|r| r.stamp.map(|st| st >= stamp).unwrap_or(false)).next() {
+        e.out.violate(
+            "C02",
+            "commit_opstamp_not_above_ops",
+            format!("commit returned {stamp}, a concurrent producer call (thread {}) that returned before it got {:?}", r.thread, r.stamp),
+        );
+        return;
+    }
     let base = e.model.live.clone();
     match linearize(&base, &recs, &observed, &e.fields) {
         Some(live) => {
